@@ -521,9 +521,14 @@ def r05_10_safe_plus_at_the_ends_of_time(ctx: Ctx) -> RuleResult:
     npd = M.fold_class_const("PyodaConstants", "NANOSECONDS_PER_DAY")
     if not all(isinstance(v, int) for v in (lo, hi, npd)):
         raise AnalysisError("Instant day range not foldable")
+    nanos: tuple = (0, npd - 1, 3600 * 10**9)
+    offs: tuple = (3600, -3600, 64800, -64800)
+    if ctx.tier != "quick":  # thorough: the exact crossing points of every whole-hour and several odd offsets, one nanosecond either side
+        offs = tuple(sorted({sg * x for sg in (1, -1) for x in (1, 59, 60, 1800, 3599, 3600, 3601, 19800, 20700, 43200, 64799, 64800)}))
+        nanos = tuple(sorted({0, 1, npd - 1, npd - 2, 3600 * 10**9} | {n for o in offs for n in ((-o * 10**9) % npd, (-o * 10**9 - 1) % npd, (-o * 10**9 + 1) % npd)}))
     for days in (lo, hi, lo + 1, hi - 1):
-        for nano in (0, npd - 1, 3600 * 10**9):
-            for off_s in (3600, -3600, 64800, -64800):
+        for nano in nanos:
+            for off_s in offs:
                 rr.inst()
                 seen: list[str] = []
 
